@@ -19,10 +19,13 @@ import random
 from .. import core, gen, impl, probes
 from . import common
 
-HELPERS = [("kv", ["V"], "V"), ("gl", ["V"], "L"), ("hn", ["N"], "N"), ("gv", ["N"], "V")]
+HELPERS = [("kv", ["V"], "V"), ("gl", ["V"], "L"), ("hn", ["N"], "N"), ("gv", ["N"], "V"),
+           # function names that start with a keyword of the filter grammar
+           ("nullable", ["V"], "L"), ("truex", ["N"], "N"), ("false_", ["V"], "V"), ("null0", ["L"], "L")]
 SHAPES = ["1", "'s'", "null", "@.a", "$.x[0]", "@", "@.*", "@..a", "@[0,1]", "$[*]", "@[0:1]", "@[1:2]", "@[0:1:1]", "$[2:3]", "@.a[0:1].b", "@[:1]", "@[-1:]", "kv(@.a)", "gl(@.a)", "hn(@.*)", "gv(@.*)",
           "length(@)", "count(@.*)", "match(@.a, 'b')", "@.a == 1", "1 == 1", "@.a && @.b", "@.a || gl(@)", "!@.a", "!gl(@.a)",
-          "(@.a)", "(@.a == 1)", "!(@.a)", "@[?@.a]", "@.a == kv(@.b)", "gl(@.a) && hn(@.*)", "kv(@.a) == 1 || @.b", "zz(@.a)"]
+          "(@.a)", "(@.a == 1)", "!(@.a)", "@[?@.a]", "@.a == kv(@.b)", "gl(@.a) && hn(@.*)", "kv(@.a) == 1 || @.b", "zz(@.a)",
+          "nullable(@.a)", "truex(@.*)", "false_(@.a)", "null0(@.a)", "true", "false", "nullable(true)", "truex", "nullx(@.a)", "false_(false)"]
 POSITIONS = ["$[?{c}]", "$[?{c} == 1]", "$[?1 == {c}]", "$[?{c} != @.a]", "$[?kv({c}) == 1]", "$[?gl({c})]", "$[?count({c}) == 1]",
              "$[?hn({c})]", "$[?!{c}]", "$[?{c} && @.a]", "$[?@.a || {c}]", "$[?({c})]", "$[?!({c})]", "$[?@[?{c}]]",
              "$[?{c} == {c}]", "$[?length({c}) == 1]", "$[?match({c}, 'a')]", "$[?gl2({c})]", "$[?@.a && ({c} || @.b)]"]
